@@ -90,7 +90,12 @@ fn get_locale_from_path<L: Locale>(path: &str, base_path: &str) -> Option<L> {
     L::get_all()
         .iter()
         .copied()
-        .find(|l| stripped_path.starts_with(l.as_str()))
+        .find(|l| {
+            // the locale must be the whole first segment, not just a prefix of it
+            stripped_path
+                .strip_prefix(l.as_str())
+                .is_some_and(|rest| rest.is_empty() || rest.starts_with('/'))
+        })
 }
 
 fn construct_path_segments<'b, 'p: 'b>(
